@@ -715,7 +715,7 @@ pub fn f_par(thorough: bool) -> Vec<Unit> {
     for u in f_lat(false) { if thorough || u.tag.ends_with("dualu32") || u.tag.ends_with("setu8") || u.tag.ends_with("constprop") || u.tag.ends_with("bool") { out.push(u); } }
     for (i, u) in f_agg(false).into_iter().enumerate() { if thorough || i % 3 == 0 || u.tag.contains("lattice") { out.push(u); } }
     // binary eqrel is the only BYODS provider with a parallel implementation
-    for u in f_ds(false) { if u.tag.starts_with("ds-eqrel-binary") { out.push(u); } }
+    for u in f_ds(false) { if u.tag.starts_with("ds-eqrel-binary") && (thorough || u.sym.is_none()) { out.push(u); } }
     for u in out.iter_mut() {
         u.variants.truncate(1);
         let base = u.variants[0].clone();
@@ -813,10 +813,12 @@ pub fn f_sugar(thorough: bool) -> Vec<Unit> {
     for (body, bound, sugar) in &bodies {
         salt += 1;
         let hd = heads_for(&base, bound, false, salt);
+        // (thorough: bodies with two sugared arguments are a cut — every 4th — to keep the batch crates compilable)
+        if *sugar == 2 && salt % 4 != 0 { continue; }
         if *sugar >= 1 { push(vec![rule(hd.clone(), body.clone())], "sugar-args", &mut units); }
         // decorations, rotating through the bodies in the quick tier
         let nv = bound.len();
-        let pick = |k: usize| thorough || salt % 7 == k;
+        let pick = |k: usize| if thorough { salt % 3 == k % 3 } else { salt % 7 == k };
         if nv >= 1 && pick(0) {
             let mut b1 = body.clone(); b1.push(BodyItem::Neg { rel: a, args: vec![v(bound[0])] });
             push(vec![rule(hd.clone(), b1)], "sugar-negation", &mut units);
